@@ -16,7 +16,7 @@ from h2.settings import SettingCodes
 from harness import vloop, wire, peer as P
 from harness.core import Result
 from harness.svc import RawCodec, Service, CARDS, exc_name
-from harness.c11_util import Recorder, drop_eof_marks, mask_wu, parse_mux
+from harness.c11_util import Recorder, drop_eof_marks, mask_wu, parse_mux, mask_like, h2_of, connect_link
 
 PROPERTY = 'C11'
 THEOREM_FILES = ['Props/C11.v']
@@ -430,13 +430,15 @@ def feed_cut(transport, data, cuts):
 
 
 def attach_recorder(ce, recs, side):
-    orig = ce._create_connection
+    """a Recorder on every connection the ClientEnd makes (ClientEnd.attempt is the harness's own hook at the
+    asyncio boundary)"""
+    orig = ce.attempt
 
-    async def cc():
-        p = await orig()
+    async def attempt(factory):
+        p = await orig(factory)
         recs.append(Recorder(p, side))
         return p
-    ce.channel._create_connection = cc
+    ce.attempt = attempt
 
 
 # ---- client end ------------------------------------------------------------------------------------------
@@ -660,18 +662,7 @@ def run_link(scn, only=None):
         server = Server([make_service(specs, logs)], codec=RawCodec())
         channel = Channel(codec=RawCodec())
         state = {'connects': 0, 'recs': []}
-
-        async def create():
-            state['connects'] += 1
-            cp = channel._protocol_factory()
-            sp = server._protocol_factory()
-            link = wire.Link(loop, cp, sp, cutter)
-            sp.connection_made(link.tb)
-            cp.connection_made(link.ta)
-            state['recs'] = [Recorder(cp, 'C'), Recorder(sp, 'S')]
-            state['link'] = link
-            return cp
-        channel._create_connection = create
+        connect_link(loop, channel, server, cutter, state)
         rr = {i: new_rec() for i in idxs}
         tasks = {i: loop.create_task(client_call(channel, calls[i], rr[i])) for i in idxs}
         for i in idxs:
@@ -748,7 +739,7 @@ def run_spurious(scn):
         absorb()
         sa = sids['a']
         total = len(amsg) + 5
-        h2c = ce.proto.connection._connection
+        h2c = h2_of(ce.proto.connection)          # located by type; None: the window cannot be read
         # call B runs while A is blocked
         tb = loop.create_task(m(b'b' * scn['blen'], metadata=[('x-call', 'b')]))
         loop.run_quiet(TICK)
@@ -783,8 +774,8 @@ def run_spurious(scn):
             # what the sender will find when it runs
             woken = stream.window_updated.is_set() or (was_blocked_on == 'wr' and st[0] == 'resume')
             wr = ce.proto.connection.write_ready.is_set()
-            window = h2c.local_flow_control_window(sa)
-            mf = h2c.max_outbound_frame_size
+            window = h2c.local_flow_control_window(sa) if h2c is not None else None
+            mf = h2c.max_outbound_frame_size if h2c is not None else None
             wu = stream.window_updated.is_set()
             loop.run_quiet(TICK)
             first = absorb()
@@ -823,6 +814,9 @@ def check_spurious(ctx, res, scn, pending):
     if o.get('violations'):
         fail('flow-control violation towards the peer', 'h2-violation', o['violations'])
     for w in o['wakes']:
+        if w['window'] is None:
+            res.count('unobservable:sender window')
+            continue
         spurious = w['window'] <= 0 or not w['wr']
         res.count('spurious:%s' % ('not-woken' if not w['woken'] else 'spurious' if spurious else 'real'))
         if spurious and w['emitted']:
@@ -1176,17 +1170,7 @@ def run_shared(scn, only=None):
         listen(server, SendInitialMetadata, server_listener('x-im-id', 'd_im'))
         listen(server, SendTrailingMetadata, server_listener('x-tm-id', 'd_tm'))
         state = {'connects': 0, 'recs': []}
-
-        async def create():
-            state['connects'] += 1
-            cp = channel._protocol_factory()
-            sp = server._protocol_factory()
-            link = wire.Link(loop, cp, sp, cutter)
-            sp.connection_made(link.tb)
-            cp.connection_made(link.ta)
-            state['recs'] = [Recorder(cp, 'C'), Recorder(sp, 'S')]
-            return cp
-        channel._create_connection = create
+        connect_link(loop, channel, server, cutter, state)
         rr = {i: new_rec() for i in idxs}
         tasks = {}
         for i in idxs:
@@ -1289,12 +1273,12 @@ def strike_kinds(scn):
 
 def model_lines(rec, side):
     """the questions put to the model for one recorder: the whole connection, and every call alone"""
+    final = rec.final()                 # (also masks the earlier snapshots with what proved unobservable)
     lines = [('mux', None, 'mux %s %s' % (side, rec.words()))]
     for pos, sid, snap in rec.release_snaps:
         lines.append(('solo', (sid, snap), 'solo %d %s %s' % (sid, side, rec.words(pos))))
         if not any(t[0] in ('GOAWAY', 'PERR', 'LOST', 'CLOSE') for t in rec.tokens[:pos]):
             lines.append(('alone', (sid, snap), 'alone %d %s %s' % (sid, side, rec.words(pos))))
-    final = rec.final()
     for snap in final['reg']:
         sid = int(snap.split('/')[0])
         lines.append(('solo', (sid, snap), 'solo %d %s %s' % (sid, side, rec.words())))
@@ -1307,11 +1291,17 @@ def compare_model(kind, info, answer, final):
     """None when model and implementation agree, else (model, impl)"""
     if kind == 'mux':
         m = parse_mux(answer)
+        if final['acks'] == '?':
+            m['acks'] = '?'
+        if final['closed'] == '?':
+            m['closed'] = '?'
+        if len(m['reg']) == len(final['reg']):
+            m['reg'] = [mask_like(x, y) for x, y in zip(m['reg'], final['reg'])]
         mi = dict(m, reg=[drop_eof_marks(x) for x in m['reg']])
         ii = dict(final, reg=[drop_eof_marks(x) for x in final['reg']])
         return None if mi == ii else (mi, ii)
     sid, snap = info
-    a, b = drop_eof_marks(answer), drop_eof_marks(snap)
+    a, b = drop_eof_marks(mask_like(answer, snap)), drop_eof_marks(snap)
     if kind == 'alone':
         a, b = mask_wu(a), mask_wu(b)
     return None if a == b else (a, b)
@@ -1415,7 +1405,12 @@ def check_scenario(ctx, res, scn, pending):
         res.count('slots:server could not go on (calls %s blocked)' % (len(mux['stuck']),))
     sides = {'client': ['C'], 'server': ['S'], 'link': ['C', 'S'], 'slots': ['C'], 'shared': ['C', 'S']}[end]
     for r, side in zip(recs, sides):
+        if r.blind:
+            res.count('unobservable:connection (no correspondence): %s' % getattr(r, 'blind_reason', '?')[:60])
+            continue
         lines, final = model_lines(r, side)
+        for u in sorted(r.unobs):
+            res.count('unobservable:%s' % u)
         for kind, info, line in lines:
             pending.append((scn, kind, info, line, final))
 
